@@ -395,6 +395,8 @@ def main(tier: str) -> int:
         plan = [('explore', (2, 1, 1, 1), 1, 1500, '2clients_1cycle_pb1'),
                 ('explore', (3, 1, 1, 1), 1, 1500, '3clients_1cycle_pb1'),
                 ('explore', (2, 1, 1, 1), 2, 1500, '2clients_1cycle_pb2'),
+                # what an interleaving leaves behind shows in the cycles that follow it
+                ('explore', (2, 3, 1, 1), 1, 1500, '2clients_3cycles_pb1'),
                 ('random', (3, 1, 1, 2), None, 300, 'random_3clients')]
     else:
         plan = [('explore', (2, 1, 1, 1), 1, 20000, '2clients_1cycle_pb1'),
